@@ -8,6 +8,7 @@
 #include <fcntl.h>
 #include <unistd.h>
 #include <sstream>
+#include <memory>
 
 namespace {
 struct CaptureWriter : public CDNS::BaseCborOutputWriter {
@@ -42,10 +43,20 @@ std::string blk(const std::vector<std::string>& a) {
     bp.storage_parameters.storage_hints.query_response_hints = qh;
     bp.storage_parameters.storage_hints.other_data_hints =
         CDNS::OtherDataHintsMask::address_event_counts | (mm_enabled ? CDNS::OtherDataHintsMask::malformed_messages : 0);
-    CDNS::CdnsBlock block(bp, 0);
+    std::unique_ptr<CDNS::CdnsBlock> holder = std::make_unique<CDNS::CdnsBlock>(bp, 0);
     for (size_t i = 3; i < a.size(); i++) {
         auto p = vh::split(a[i], ':');
-        if (p[0] == "q") {
+        CDNS::CdnsBlock& block = *holder;
+        if (p[0] == "K") {
+            // the block is replaced by a copy of itself (copy construction; the original is destroyed)
+            std::unique_ptr<CDNS::CdnsBlock> cp = std::make_unique<CDNS::CdnsBlock>(block);
+            holder = std::move(cp);
+        } else if (p[0] == "k") {
+            // ... by assignment into a fresh block
+            std::unique_ptr<CDNS::CdnsBlock> nb = std::make_unique<CDNS::CdnsBlock>(bp, 0);
+            *nb = block;
+            holder = std::move(nb);
+        } else if (p[0] == "q") {
             CDNS::GenericQueryResponse g;
             parse_ts(p[1], g.ts);
             if (p[3] == "1") g.client_port = 53;
@@ -72,6 +83,7 @@ std::string blk(const std::vector<std::string>& a) {
             block.clear();
         } else return "bad-op";
     }
+    CDNS::CdnsBlock& block = *holder;
     std::string out = "I " + show(block.m_block_preamble.earliest_time) + "|";
     for (size_t i = 0; i < block.m_query_responses.size(); i++) out += (i ? "," : "") + showo(block.m_query_responses[i].time_offset);
     out += "|";
